@@ -833,7 +833,7 @@ fn main() {
                     p.ka = KaPolicy::Prompt(51 + 2 * r.below(100));
                     let mut ads = base_ads(&mut r);
                     if let Ok(d) = &mut ads.discover.0 { if d.is_empty() { d.push(rnd_target(&mut r, 0)); } }
-                    let t0 = 1001u64;
+                    let t0 = 3001u64;   // later than any login takes
                     ads.discover.1 = 201 + 2 * r.below(30); ads.filter.1 = 101 + 2 * r.below(30); ads.select.1 = 51 + 2 * r.below(30);
                     match i % 3 {
                         0 => ads.discover.1 = PMS + 1 - t0,
@@ -848,6 +848,29 @@ fn main() {
                     let ci_act = sc.acts[ci].clone();
                     sc.acts.splice(ack + 1..ci + 1, vec![Act::SleepUntil(t0), ci_act]);
                     if torn { sc.tear_at = Some(PMS); }
+                    run(sc, &mut r);
+                }
+                // the same at the SECOND tick with a client that never echoes: the packet torn is the timeout
+                // Disconnect, and the raced call completes while it is half written - the verdict must stand
+                for i in 0..(3 * scale) {
+                    let mut p = base_params(&mut r, Intent::Login);
+                    p.ka = KaPolicy::Never;
+                    let mut ads = base_ads(&mut r);
+                    if let Ok(d) = &mut ads.discover.0 { if d.is_empty() { d.push(rnd_target(&mut r, 0)); } }
+                    let t0 = 3001u64;   // later than any login takes
+                    ads.discover.1 = 201 + 2 * r.below(30); ads.filter.1 = 101 + 2 * r.below(30); ads.select.1 = 51 + 2 * r.below(30);
+                    match i % 3 {
+                        0 => ads.discover.1 = 2 * PMS + 1 - t0,
+                        1 => ads.filter.1 = 2 * PMS + 1 - t0 - ads.discover.1,
+                        _ => ads.select.1 = 2 * PMS + 1 - t0 - ads.discover.1 - ads.filter.1,
+                    }
+                    let cl = rnd_sa(&mut r);
+                    let mut sc = build("WCAN", &mut r, &p, ads.clone(), None, cl, format!("write-side cancel of the timeout disconnect, race {} #{}", i % 3, i));
+                    let ack = sc.acts.iter().position(|a| matches!(a, Act::Frame { id: 3, .. })).unwrap();
+                    let ci = sc.acts.iter().position(|a| matches!(a, Act::Frame { id: 0, body } if body.len() > 5 && sc.acts.iter().position(|x| std::ptr::eq(x, a)).unwrap() > ack)).unwrap();
+                    let ci_act = sc.acts[ci].clone();
+                    sc.acts.splice(ack + 1..ci + 1, vec![Act::SleepUntil(t0), ci_act]);
+                    sc.tear_at = Some(2 * PMS);
                     run(sc, &mut r);
                 }
             }
